@@ -211,8 +211,17 @@ def run(ctx: Ctx) -> int:
             continue
         pyv = [num_of_py(t) for t in writes(ev)]
         fwv = [num_of_fw(t) for t in writes(pyoracle.fw_events(res.trace))]
+        # a Python int outside the 32-bit range of the host compiler's `int` is outside the side condition (trusted base):
+        # compare only up to the first such value (what follows may depend on the wrapped value)
+        cut = next((i for i, v in enumerate(pyv) if isinstance(v, int) and not isinstance(v, bool) and abs(v) > 2147483647), None)
+        if cut is not None:
+            ctx.count("int-range-exceeded (outside the side condition)")
+            same_len = len(pyv) == len(fwv)
+            pyv, fwv = pyv[:cut], fwv[:cut]
+            if not same_len:
+                continue
         agree = len(pyv) == len(fwv) and all(same(a, b) for a, b in zip(pyv, fwv))
-        if straight and "py" in mrun:
+        if straight and "py" in mrun and cut is None:
             names = [s[1] for s in p["pre"] if s[0] == "wr"]
             mpy, mc = model_store(mrun["py"]), model_store(mrun["c"])
             # the last write of each name is its final value
